@@ -100,7 +100,7 @@ def main():
         "hooks": {
             "guard": "ACREOM_QUICKADD_VERIF",
             "enable": "no source hooks: the harness interposes from outside (ctparse.timers.perf_counter, scorer= parameter, registry wrappers, sys.settrace); checks import the working tree of /repo directly",
-            "baseline_off_cmd": "cd /repo && /venv/bin/python -m pytest -q -p no:cacheprovider --timeout=900 --deselect tests/test_ctparse.py::test_ctparse",
+            "baseline_off_cmd": "cd /repo && /venv/bin/python -m pytest -ra -q -p no:cacheprovider --timeout=900 --continue-on-collection-errors",
             "source_commits": [],
             "add_only": True,
         },
